@@ -292,11 +292,18 @@ def main(argv=None):
     # look harder: the quick tier then samples at the size of the thorough tier
     src_sha, src_changed = source_state(pid)
     gen_tier = tier
-    if src_changed and tier == "quick" and not os.environ.get("VERIF_NO_ESCALATE"):
+    if src_changed and tier == "quick" and not os.environ.get("VERIF_NO_ESCALATE") and getattr(prop, "ESCALATE", True):
         gen_tier = "thorough"
         log(f"[{pid}] anchored source changed since it was pinned ({', '.join(src_changed)}): sampling at thorough size")
+    # an escalated quick run stays a quick run: it stops drawing cases after a time budget (generators that build
+    # histories run the implementation while generating) or at eight times the quick size of the slowest check
+    t_gen, escalated = time.time(), gen_tier != tier
+    budget = float(os.environ.get("VERIF_ESCALATE_SECONDS", "40"))
     for c in prop.gen(rnd, gen_tier):
         cases.append(c)
+        if escalated and (len(cases) % 500 == 0) and (time.time() - t_gen > budget or len(cases) >= getattr(prop, "ESCALATE_MAX", 150000)):
+            log(f"[{pid}] escalated sampling stopped after {len(cases)} cases ({time.time() - t_gen:.0f} s)")
+            break
     log(f"[{pid}] {len(cases)} cases ({ncorpus} corpus)")
 
     encF, encX = Enc("F"), Enc("X")
